@@ -29,12 +29,13 @@ extern "C" int LLVMFuzzerTestOneInput(const uint8_t* data, size_t size) {
   if (c.targets.empty()) c.targets.push_back("out.o");
   for (int i = 0; i < nd; i++) {
     string n = TakeName(f, false);
-    if (!Representable(n) || InD11Class(n)) { vstats::Class("skipped_name"); continue; }
+    if (!(Representable(n) || (RepresentableMidLine(n) && c.layout != 5 && c.layout != 6)) || InD11Class(n)) { vstats::Class("skipped_name"); continue; }
     bool clash = false; for (auto& t : c.targets) if (t == n) clash = true;
     if (clash) continue;
     if (n.find_first_of(" \\#$:%") != string::npos) special = true;
     c.deps.push_back(n);
   }
+  if (!c.deps.empty() && !Representable(c.deps.back())) { c.deps.push_back("tail.h"); vstats::Class("dep_ending_in_even_backslashes"); }
   string r = Check(c);
   if (!r.empty()) vstats::Fail("C15 depfile round trip (encoder " + string(c.encoder ? "clang" : "gcc") + ", layout " + std::to_string(c.layout) + "): " + r);
   if (special) { string t = Encode(c); vstats::NonTrivial(t.data(), t.size()); vstats::Sample(t); }
